@@ -63,8 +63,12 @@ def materialise(env, schema_state, insts, variant):
                   "properties": {"b": {"$ref": "#/definitions/int"}, "a": {"$ref": "root.json#/definitions/any"}},
                   "maxProperties": 2}
     if variant.get("base_uri"):
-        schema = {"properties": {"b": {"$ref": "sub-%s.json" % tag}}, "required": ["a"], "type": "object", "maxProperties": 2}
-        env.write("sub-%s.json" % tag, json.dumps({"type": "integer"}))
+        # the same schema text every time; what "sub.json" means is decided by --base-uri alone (a directory per run)
+        schema = {"properties": {"b": {"$ref": "sub.json"}}, "required": ["a"], "type": "object", "maxProperties": 2}
+        os.makedirs(env.path(tag))
+        env.write(tag + "/sub.json", json.dumps({"type": "integer"}))
+        os.makedirs(env.path(tag + "-elsewhere"))
+        env.write(tag + "-elsewhere/sub.json", json.dumps({"type": "string"}))
     sp = env.path("schema-%s.json" % tag)
     if schema_state == "notjson":
         env.write("schema-%s.json" % tag, "{not json")
@@ -84,6 +88,8 @@ def materialise(env, schema_state, insts, variant):
             inst = INST[kind["n"]]
             if variant.get("dollar_schema7") and kind["n"] == 1:
                 inst = {"a": 1, "b": 2.0}       # an integer only from draft 6 on: the drafts disagree
+            if variant.get("null_instance") and kind["n"] == 1:
+                inst = None                     # the document `null`: loads fine, fails `type` (one error)
             env.write(os.path.basename(p), json.dumps(inst))
         files.append((p, kind))
         argv += ["-i", p]
@@ -98,7 +104,7 @@ def materialise(env, schema_state, insts, variant):
     if variant.get("d3_explicit"):
         argv += ["--validator", "Draft3Validator"]
     if variant.get("base_uri"):
-        argv += ["--base-uri", "file://" + env.dir + "/"]
+        argv += ["--base-uri", "file://" + env.path(tag) + "/"]
     argv.append(sp)
     return argv, files, (schema if schema_state == "valid" else None), sp
 
@@ -224,7 +230,7 @@ def run_case(js, env, schema_state, insts, variant, subprocess_too=False):
             if kind["k"] in ("valid", "invalid"):
                 inst = json.load(open(p))
                 if variant.get("base_uri"):
-                    v = cls(schema_obj, resolver=js.RefResolver(base_uri="file://" + env.dir + "/", referrer=schema_obj))
+                    v = cls(schema_obj, resolver=js.RefResolver(base_uri=argv[argv.index("--base-uri") + 1], referrer=schema_obj))
                 else:
                     v = cls(schema_obj)
                 lib_errors[i + 1] = [("{}".format(e.instance), e.message) for e in v.iter_errors(inst)]
@@ -240,6 +246,14 @@ def run_case(js, env, schema_state, insts, variant, subprocess_too=False):
         p, kind = files[0]
         stdin_text = open(p).read()
         files = [("<stdin>", kind)]
+    if variant.get("base_uri"):
+        # an earlier run in this process, same schema file, another --base-uri (where sub.json says something else)
+        other = list(argv)
+        other[other.index("--base-uri") + 1] = other[other.index("--base-uri") + 1][:-1] + "-elsewhere/"
+        try:
+            cli.run(arguments=cli.parse_args(other), stdout=io.StringIO(), stderr=io.StringIO(), stdin=io.StringIO(stdin_text or ""))
+        except BaseException:  # noqa
+            pass
     out, err = io.StringIO(), io.StringIO()
     try:
         code = cli.run(arguments=cli.parse_args(argv), stdout=out, stderr=err, stdin=io.StringIO(stdin_text or ""))
@@ -272,7 +286,7 @@ def main(args):
                "checks exit-0-iff-everything-succeeded, every-instance-processed, plain-stdout-empty and monotone exit code, "
                "and exports the expected exit code and record sequences; each run is executed with real files through "
                "cli.run (and a sample through `python -m jsonschema`) in the variants default error format / custom "
-               "--error-format / an empty --error-format / a draft 4 schema with a root id and references into itself / explicit --validator / class from $schema / explicit --validator against a schema declaring another draft / a schema that is well-formed (or ill-formed) only for the class named by --validator / --base-uri with a relative file reference / "
+               "--error-format / an empty --error-format / a draft 4 schema with a root id and references into itself / explicit --validator / class from $schema / explicit --validator against a schema declaring another draft / a schema that is well-formed (or ill-formed) only for the class named by --validator / --base-uri with a relative file reference (after a run of the same schema file under another --base-uri) / an instance document that is `null` / "
                "instance on stdin, stdout and stderr are parsed back into records and each validation error is attributed by "
                "comparison with the library's own iter_errors; plus random longer lists judged by TLC (Trace_C19). "
                "Non-trivial: a valid schema and >= 2 instances of different kinds; distinct by (inputs, variant)." % (2 if quick else 3))
@@ -281,16 +295,16 @@ def main(args):
         raise tlc.MachineryFailure("CLI model violated: " + r.violation)
     ck.add_tlc(r, "MC_C19")
     env = Env()
-    variants_plain = [{}, {"explicit_validator": True, "d4_only": True, "custom_format": True}, {"custom_format": True}, {"empty_format": True}, {"root_id": True, "custom_format": True}, {"explicit_validator": True, "custom_format": True}, {"dollar_schema": True},
+    variants_plain = [{}, {"null_instance": True}, {"explicit_validator": True, "d4_only": True, "custom_format": True}, {"custom_format": True}, {"empty_format": True}, {"root_id": True, "custom_format": True}, {"explicit_validator": True, "custom_format": True}, {"dollar_schema": True},
                       {"explicit_validator": True, "dollar_schema7": True, "custom_format": True},
                       {"base_uri": True, "custom_format": True}]
     try:
         for n, ex in enumerate(r.exports):
-            vs = [{"pretty": True}, {"pretty": True, "explicit_validator": True}] if ex["pretty"] else variants_plain
+            vs = [{"pretty": True}, {"pretty": True, "explicit_validator": True}, {"pretty": True, "null_instance": True}] if ex["pretty"] else variants_plain
             if ex["schema"] == "invalid":
                 vs = vs + [dict(vs[0], d3_explicit=True)]
             if len(ex["insts"]) == 1 and ex["insts"][0]["k"] in ("valid", "invalid", "notjson"):
-                vs = vs + [dict(vs[0], stdin=True)]
+                vs = vs + [dict(vs[0], stdin=True), dict(vs[0], stdin=True, null_instance=True)]
             for vi, variant in enumerate(vs):
                 got, info = run_case(js, env, ex["schema"], ex["insts"], variant, subprocess_too=(n % 41 == 0 and vi == 0))
                 ck.replayed += 1
